@@ -44,6 +44,8 @@ pub struct RealWorld {
     pub inputs: Vec<&'static str>,
     pub scanners: HashMap<usize, Scanner>,
     pub iters: HashMap<usize, FindMatches<'static>>,
+    /// a scanner shared between threads (slot 99), used through `&Scanner` only
+    pub shared: Option<std::sync::Arc<Scanner>>,
 }
 
 impl RealWorld {
@@ -53,6 +55,33 @@ impl RealWorld {
             inputs: inputs.iter().map(|s| &*Box::leak(s.clone().into_boxed_str())).collect(),
             scanners: HashMap::new(),
             iters: HashMap::new(),
+            shared: None,
+        }
+    }
+
+    /// A build without touching the harness' id table: returns the canonical dump text.
+    pub fn exec_build_unlocked(&mut self, op: &WOp) -> (String, Result<Option<String>, ()>) {
+        let (s, cfg, cached) = match op {
+            WOp::Build { s, cfg } => (*s, *cfg, true),
+            WOp::BuildU { s, cfg } => (*s, *cfg, false),
+            _ => unreachable!(),
+        };
+        let modes = self.cfgs[cfg].clone();
+        let r = catch_unwind(AssertUnwindSafe(|| {
+            let b = ScannerBuilder::new().add_scanner_modes(&modes);
+            if cached { b.build() } else { b.build_uncached() }
+        }));
+        let line = format!("{} {} {}", if cached { "wbuild" } else { "wbuildu" }, s, cfg);
+        match r {
+            Err(_) => (line, Err(())),
+            Ok(Err(_)) => (line, Ok(None)),
+            Ok(Ok(sc)) => {
+                let mut d = sc.verif_dump();
+                d.current_mode = 0;
+                let key = format!("{:?}", d);
+                self.scanners.insert(s, sc);
+                (line, Ok(Some(key)))
+            }
         }
     }
 
@@ -93,6 +122,13 @@ impl RealWorld {
             }
             WOp::FindIter { s, k, input } => {
                 let line = format!("wfinditer {} {}{}", s, k, proto::cps(self.inputs[*input]));
+                if *s == 99 {
+                    if let Some(sh) = &self.shared {
+                        let it = sh.find_iter(self.inputs[*input]);
+                        self.iters.insert(*k, it);
+                        return (line, None);
+                    }
+                }
                 match self.scanners.get(s) {
                     Some(sc) => {
                         let it = sc.find_iter(self.inputs[*input]);
